@@ -73,3 +73,49 @@ def detail_of(rec):
 
 def nontrivial_tag(rec):
     return (rec["entry"], rec.get("shape")) if rec.get("overlay") else None
+
+
+I16_MIN = -32768
+
+
+def alloc_obligations(run, entry, prof, rec, d, nt):
+    """The allocation obligations of the FIFO free-list model, decided on one terminal record of an allocating entry point (Arena::new_node; NodeId::append_value
+    when it has an allocation path of its own - entry `append_alloc`).  Returns the kinds of allocation seen ({'push'} / {'pop'})."""
+    kinds = set()
+    name = "new_node" if entry == "new_node" else "append_value"
+    pre, post, pn = rec["fl_pre"], rec["fl_post"], rec["fl_pre_next"]
+    k = rec["returned"]
+    run.ob(entry, "%s/%s: returns an id of a slot of this arena" % (name, prof), k is not None, key="%s|returned id addresses no slot" % name, detail=d)
+    if k is None:
+        return kinds
+    links_ok = rec["returned_links"] == [None] * 5 if entry == "new_node" else True      # the links append_value leaves are decided by C03's model comparison
+    run.ob(entry, "%s/%s: returned slot is live afterwards with the payload stored%s" % (name, prof, " and no links" if entry == "new_node" else ""),
+           rec["returned_data"] == "Data" and links_ok and rec["returned_stamp_range"][0] >= 0,
+           key="%s|returned slot not a clean live node" % name, detail=d, nontrivial=nt)
+    run.ob(entry, "%s/%s: the id handed out carries the slot's current generation (a fresh id is not 'removed')" % (name, prof), rec.get("returned_id_is_current") is True,
+           key="%s|returned id does not carry the slot's current stamp" % name, detail=d, nontrivial=nt)
+    if entry == "new_node":
+        untouched = not rec["other_writes"] and all(w[0] == k for w in rec["data_writes"])
+    else:
+        untouched = all(w[0] == k for w in rec["data_writes"]) and all(w[0] == k for w in rec.get("payload_writes", []))
+    run.ob(entry, "%s/%s: no other node%s is written" % (name, prof, "" if entry == "new_node" else "'s payload or stamp"), untouched,
+           key="%s|writes to another node" % name, detail=d)
+    if pre["first"] is None:
+        kinds.add("push")
+        ok = rec["events"] == ["push"] and rec["returned_fresh"] and rec["len"][1].endswith("+1") and post["first"] in (None,) and post["last"] in (None, "unk") \
+            and rec["returned_stamp_range"] == [0, 0]
+        run.ob(entry, "%s/%s: empty free list -> push one slot (count + 1), stamp 0" % (name, prof), ok, key="%s|empty free list does not push exactly one fresh slot" % name, detail=d, nontrivial=nt, sample=True)
+    else:
+        kinds.add("pop")
+        h = pre["first"]
+        nxt = pn.get(h, "unk")
+        ok = k == h and not rec["returned_fresh"] and rec.get("returned_was_member") and rec["events"] == [] and rec["len"][0] == rec["len"][1]
+        run.ob(entry, "%s/%s: non-empty free list -> the head is recycled, count unchanged" % (name, prof), ok,
+               key="%s|does not recycle the head of the free list without growing" % name, detail=d, nontrivial=nt, sample=True)
+        ok2 = post["first"] == nxt and ((nxt is None and post["last"] is None) or (nxt is not None and post["last"] in ("unk", pre["last"])))
+        run.ob(entry, "%s/%s: first := head.next; last := None iff the list became empty" % (name, prof), ok2,
+               key="%s|free-list ends wrong after popping the head" % name, detail=d, nontrivial=nt)
+        plo, phi = rec.get("returned_prev_stamp_range") or (0, 0)
+        run.ob(entry, "%s/%s: recycled slot was removed (stamp < 0) and reuseable" % (name, prof), phi < 0 and plo > I16_MIN,
+               key="%s|recycled slot was not a removed, reuseable slot" % name, detail=d)
+    return kinds
